@@ -103,7 +103,9 @@ type Child struct {
 	stat     childStat
 	cur      string
 	nviol    int
-	maxViol  int
+	maxViol  int            // records written per distinct signature
+	violBy   map[string]int // signature -> records seen
+	nwritten int
 	sampleBy map[string]int
 }
 
@@ -204,9 +206,16 @@ func (c *Child) Violation(sig, msg string, detail interface{}) {
 	c.mu.Lock()
 	defer c.mu.Unlock()
 	c.nviol++
-	if c.nviol > c.maxViol {
+	// The cap is per signature: a frequently hit signature (a known finding's
+	// relaxation, say) must never crowd out the record of another one.
+	if c.violBy == nil {
+		c.violBy = map[string]int{}
+	}
+	c.violBy[sig]++
+	if c.violBy[sig] > c.maxViol || c.nwritten >= 2000 {
 		return
 	}
+	c.nwritten++
 	c.write(&record{T: "v", V: &Violation{Sig: sig, Msg: msg, Case: c.cur, Batch: c.Batch, Detail: detail}})
 }
 
@@ -293,7 +302,7 @@ func RunChild(prop, tier string, seed uint64, batch, nb int, only, outDir string
 		return 4
 	}
 	c := &Child{Prop: prop, Tier: tier, Seed: seed, Batch: batch, NBatches: nb, Only: only, OutDir: outDir,
-		out: f, hashes: map[uint64]struct{}{}, maxViol: 40, sampleBy: map[string]int{}}
+		out: f, hashes: map[uint64]struct{}{}, maxViol: 12, sampleBy: map[string]int{}}
 	c.stat.Features = map[string]int64{}
 	c.stat.DontCare = map[string]int64{}
 	c.stat.Extra = map[string]float64{}
